@@ -340,6 +340,9 @@ def compare_class(prog, cls):
             T = ren_lin(rj["T"], ren)
             cur = ren_lin(rj["cursor"], ren)
             left = Lin(total.c - cur.c, tuple(sorted(set(total.syms) - set(cur.syms)))) if set(cur.syms) <= set(total.syms) else None
+            if left is not None and not T.syms and left.syms:
+                # a constant threshold against a body whose length has symbolic parts (string lengths, each >= 0): the shortest such body
+                left = Lin(left.c)
             if left is None or tuple(sorted(T.syms)) != tuple(sorted(left.syms)):
                 raise AnalysisError("decoder of %s: the length test %s cannot be compared with the encoder's layout" % (cls.name, rj["text"]))
             if T.c >= left.c:
